@@ -924,7 +924,7 @@ from py_stringsimjoin.profiler.profiler import profile_table_for_join           
 
 
 def gen_column(rng, stats):
-    kind = rng.choice(['int', 'float_int', 'float', 'object', 'str', 'float_allnan', 'empty_float', 'empty_object', 'bool'])
+    kind = rng.choice(['int', 'float_int', 'float', 'object', 'str', 'float_allnan', 'empty_float', 'empty_object', 'bool', 'float_inf'])
     n = rng.randint(1, 8)
     nan_p = rng.choice([0.0, 0.3, 0.7])
     if kind == 'int':
@@ -934,6 +934,10 @@ def gen_column(rng, stats):
     elif kind == 'float':
         s = pd.Series([np.nan if rng.random() < nan_p else rng.choice([1.5, 2.0, 0.1, 1e-7, 123456.789, 1e16, -3.25, 7.0]) for _ in range(n)],
                       dtype='float64')
+    elif kind == 'float_inf':
+        # infinities: never "integral", printed as 'inf' / '-inf'
+        pool = rng.choice([[1.0, 2.0, float('inf'), float('-inf')], [1.0, 2.0, 1.5, -3.25, 1e16, float('inf'), float('-inf'), 0.0, 7.0, 1e-7]])
+        s = pd.Series([np.nan if rng.random() < nan_p else rng.choice(pool) for _ in range(n)], dtype='float64')
     elif kind == 'object':
         s = pd.Series([None if rng.random() < nan_p else rng.choice(['a', 'b c', '', '12']) for _ in range(n)], dtype=object)
     elif kind == 'str':
@@ -963,7 +967,7 @@ def suite_converter(rng, n, stats):
     for _ in range(n):
         s, kind = gen_column(rng, stats)
         before = col_json(s)
-        reprs = {f2hex(v): str(v) for v in s if isinstance(v, float) and not math.isnan(v)}
+        reprs = {f2hex(v): str(v) for v in s if isinstance(v, float) and not math.isnan(v) and not math.isinf(v)}
         mode = rng.choice(['series', 'frame'])
         inplace = rng.random() < 0.4
         return_col = rng.random() < 0.35
@@ -1003,11 +1007,18 @@ def suite_converter(rng, n, stats):
     return cases
 
 
+MIXED_POOL = [0, 1, 2, True, False, 0.0, 1.0, 2.0, 1.5, 2 ** 53, 2 ** 53 + 1, float(2 ** 53), 2 ** 63, float(2 ** 63),
+              float('inf'), float('-inf'), '1', 'True', '', '1.0', 'inf', None, float('nan'), np.int64(1), np.float64(1.0),
+              np.bool_(True), np.bool_(False), np.float32(1.0), 0.1, 10 ** 30, 1e30, -1, -1.0]
+
+
 def gen_profile_frame(rng, stats, big=False):
     n = rng.randint(1, 12) if not big else rng.choice([20000, 20001, 25000, 40003])
+    if not big and rng.random() < 0.15:
+        n = rng.randint(13, 3000)          # more rows: percentages with many different two-decimal values
     cols = {}
     for i in range(rng.randint(1, 4)):
-        kind = rng.choice(['key', 'dups', 'missing', 'onedup', 'onemissing', 'float', 'mixednone'])
+        kind = rng.choice(['key', 'dups', 'missing', 'onedup', 'onemissing', 'float', 'mixednone', 'mixedtypes', 'mixedtypes', 'percent'])
         if kind == 'key':
             v = list(range(n))
         elif kind == 'dups':
@@ -1023,10 +1034,22 @@ def gen_profile_frame(rng, stats, big=False):
             v[rng.randrange(n)] = None
         elif kind == 'float':
             v = [np.nan if rng.random() < 0.2 else rng.choice([1.5, 2.5, 3.25, 4.0]) for _ in range(n)]
+        elif kind == 'mixedtypes' and not big:
+            # values of different Python types that pandas' unique() identifies (1 == 1.0 == True) or keeps apart ('1' vs 1)
+            v = [rng.choice(MIXED_POOL) for _ in range(n)]
+        elif kind == 'percent' and not big:
+            # k missing values out of m rows: the two-decimal percentage strings
+            k0 = rng.randint(0, n)
+            v = [None] * k0 + ['s%d' % j for j in range(n - k0)]
+            rng.shuffle(v)
         else:
             v = [rng.choice([None, np.nan, 'a', 'b']) for _ in range(n)]
         stats.hit('profiler.col.' + kind)
-        cols['c%d' % i] = pd.Series(v, dtype=object if kind in ('missing', 'onemissing', 'mixednone') else None)
+        as_object = kind in ('missing', 'onemissing', 'mixednone', 'percent') or (kind == 'mixedtypes' and rng.random() < 0.6)
+        try:
+            cols['c%d' % i] = pd.Series(v, dtype=object if as_object else None)
+        except (OverflowError, TypeError, ValueError):
+            cols['c%d' % i] = pd.Series(v, dtype=object)
     return pd.DataFrame(cols)
 
 
